@@ -1,0 +1,9 @@
+//go:build verif
+
+package eval
+
+import "src.elv.sh/pkg/parse"
+
+// VerifC42MakeFlag exposes makeFlag (the os.OpenFile flags of a redirection
+// mode) to the C42 check. Add-only; compiled only with -tags verif.
+func VerifC42MakeFlag(m parse.RedirMode) int { return makeFlag(m) }
